@@ -270,8 +270,57 @@ def machine_fits(mp, bs, eps, H):
     return 4 * bmax * vb * mp["PD"] * mp["OD"] * S ** max(H, 1) * S * max(eps.denominator, eps.numerator) < LIM
 
 
+def make_near(rng):
+    """Near-belief family: revealing observations, an initial belief with mass 1/2048 on a state B where the action
+    that is best in the likely state A is catastrophic, and a cycle A -> C -> A after which the agent KNOWS it is
+    in A.  The vertex of A is a reachable belief at Euclidean distance sqrt(2)/2048 < 1e-3 from the initial belief
+    with another optimal action.  All numbers are dyadic (floating point is exact); the rewards are large, so the
+    exact backup machine does not run on these (the integer oracle at depth 1 does: it is exact here)."""
+    GN, GD = 1, 2          # (with the dyadic thresholds below the spec's horizon formula stays inside 32 bits)
+    perm = [0, 1, 2]
+    rng.shuffle(perm)
+    A, Bs, C = perm
+    x, y = rng.choice([(0, 1), (1, 0)])
+    gain, cpen = rng.choice([1, 2]), rng.choice([0, -1])
+    # catastrophe large enough that 1/2048 of it outweighs what the good action gains in A: gain (1 + gamma)
+    M = 4096
+    while F(M, 2048) <= F(5, 4) * gain * (1 + F(GN, GD)):
+        M *= 2
+    M *= rng.choice([1, 2])
+    N, K, PD, OD = 3, 2, 2, 2
+    P = [[[0] * N for _ in range(K)] for _ in range(N)]
+    R = [[[0] * N for _ in range(K)] for _ in range(N)]
+    for s_, a_, t_, r_ in ((A, x, A, gain), (A, y, C, 0), (Bs, x, Bs, -M), (Bs, y, C, 0), (C, x, C, cpen), (C, y, A, 0)):
+        P[s_][a_][t_] = PD
+        R[s_][a_] = [r_] * N
+    p0 = [0] * N
+    p0[A], p0[Bs] = 2047, 1
+    O = [[[OD if o == n else 0 for o in range(N)] for n in range(N)] for _ in range(K)]
+    obs = rng.choice(["identity", "permuted"])
+    if obs == "permuted":
+        for a_ in range(K):
+            pm = list(range(N))
+            rng.shuffle(pm)
+            O[a_] = [[row[pm[o]] for o in range(N)] for row in O[a_]]
+    m = {"N": N, "K": K, "PD": PD, "GN": GN, "GD": GD, "ID": 2048, "abs": [0] * N, "avail": [[1] * K for _ in range(N)],
+         "P": P, "R": R, "p0": p0, "NO": N, "OD": OD, "O": O, "ghost": 0, "obs_kind": obs, "rfam": "mixed", "near": 1}
+    # the two beliefs must really ask for different actions
+    _, Q, _, _ = leaf_tables(m)
+    b0 = [F(w, 2048) for w in p0]
+    at_b0 = [sum(b0[s_] * Q[s_][a_] for s_ in range(N)) for a_ in range(K)]
+    if not (at_b0[y] > at_b0[x] and Q[A][x] > Q[A][y]):
+        raise AssertionError("near-belief family: construction does not separate the two beliefs")
+    return m
+
+
 def make_case(rng, k, tier):
     while True:
+        if k % 16 == 9:
+            m = make_near(rng)
+            rep = dict(labels=rng.choice(LABELS), alabels=rng.choice(LABELS), olabels=rng.choice(LABELS),
+                       explicit_list=rng.random() < 0.5, dist=rng.choice(DISTS), odist=rng.choice(DISTS), outside=None)
+            mp, ls = prune(m, pb.listed_states(m, rep["explicit_list"]))
+            break
         GN, GD = GAMMAS[rng.randrange(len(GAMMAS))]
         rfam = RFAMS[(k + rng.randrange(2)) % len(RFAMS)]
         obs = OBSK[(k // 2 + rng.randrange(2)) % len(OBSK)]
@@ -348,6 +397,9 @@ def make_case(rng, k, tier):
         add(_vertex(N, rng.choice(abss)))
     for _s, _a, n_ in mp["rare"]:
         add(_vertex(N, n_))
+    if m.get("near"):
+        for s_ in range(N):
+            add(_vertex(N, s_))
     add([rng.randint(1, 3) for _ in range(N)])
     z = [rng.randint(1, 3) for _ in range(N)]
     z[rng.randrange(N)] = 0
@@ -382,6 +434,8 @@ def make_case(rng, k, tier):
             eps, H = F(2, 1), -1                       # threshold above the reward range: automatic horizon <= 0
         else:
             eps, H = rng.choice([F(1, 10), F(1, 100), F(1, 4), F(1, 8)]), rng.choice([-1, 1, 2, 3, 4, 5, 5, 20])
+        if m.get("near") and H < 0:
+            eps = F(1, 128)
         while H < 0 and py_auto_h(mp, eps)[1]:
             eps = eps * F(19, 20)                      # avoid the rounding-dependent exact power
         s1.append({"bs": bs, "eps": [eps.numerator, eps.denominator], "H": H})
@@ -397,6 +451,9 @@ def make_case(rng, k, tier):
             dict(min_belief_expansions=2, max_belief_expansions=6, value_convergence_epsilon=[1, 100], horizon=-1),
             dict(min_belief_expansions=5, max_belief_expansions=6, value_convergence_epsilon=[1, 8], horizon=2)]
     pick = [menu[k % len(menu)], menu[(k * 3 + 1) % len(menu)]]
+    if m.get("near"):       # budgets under which the farthest-successor rule closes the belief set (4 members)
+        pick = [dict(min_belief_expansions=5, max_belief_expansions=8, value_convergence_epsilon=[1, 100], horizon=20),
+                dict(min_belief_expansions=10, max_belief_expansions=50, value_convergence_epsilon=[1, 128], horizon=-1)]
     if tier != "quick":
         pick.append(menu[(k * 5 + 2) % len(menu)])
     for c in pick:
@@ -947,6 +1004,8 @@ def shape_of(m):
         tags.append("ghost-absorbing-states")
     if m.get("rare"):
         tags.append("rare-transition")
+    if m.get("near"):
+        tags.append("reachable-belief-within-1e-3-of-another")
     return ",".join(tags)
 
 
@@ -1347,7 +1406,8 @@ def run(ctx):
     n = 220 if ctx.tier == "quick" else 2400
     ctx.rule = ("random discounted tabular POMDPs (2-4 states incl. 0-2 absorbing ones with or without ghost dynamics, 1-3 actions, "
                 "1-3 observations; observation kernels random / identity / action-permuted identity / single / uninformative; "
-                "rewards mixed / non-negative / non-positive / constant; discount 1/2, 3/4, 1/4, 9/10; every 8th case a rare-transition "
+                "rewards mixed / non-negative / non-positive / constant; discount 1/2, 3/4, 1/4, 9/10; every 16th case a near-belief instance (initial mass 1/2048 on a state with a "
+                "catastrophic reward, a reachable vertex within 1e-3 of the initial belief with another best action); every 8th case a rare-transition "
                 "instance: revealing observations, one state entered with probability 1e-9 only, another action best there) x evaluation beliefs "
                 "(initial, vertices incl. absorbing, simplex points with a zero component, filter-reachable) x direct backup "
                 "runs and planner configurations (thresholds, horizons incl. None and 0, expansion budgets) x QMDP with PI / VI; "
